@@ -11,6 +11,22 @@ E3 = "exhaustive / preemption-bounded prange schedule enumeration on source-deri
 
 # id -> (built, category, technique, text, note, design_ref)
 CHECKS = {
+    "C05": (
+        True,
+        "model_checking",
+        E3 + " + " + E1,
+        "Schedules: thread bodies are derived by AST rewriting from the current source of hist2d (whether the region is parallel is read "
+        "from the real numba dispatcher); for 12 (quick) / 16 (thorough) harnesses with points forced into one bin, two bins or disjoint "
+        "bins and 1-2 value layers, every partition of the iterations among 2-3 virtual threads is explored: a conflict certificate "
+        "(no element touched by iterations of two threads) closes conflict-free partitions with one execution, the others are "
+        "enumerated with 0, 1, 2 preemptions and then completely (<= 60000 interleavings), every final (out, counts) compared with the "
+        "sequential result. Inputs: the compiled kernel on every placement of 0-2 points (3-4 with two deviations) over an alphabet of "
+        "positions around each limit and bin edge, NaN, +-inf, for resolutions 1-4 and two ranges; the public histogram2d on 6 data sets "
+        "x explicit/Quantity/tight/half/automatic limits x lin/log axes x resolutions x 0-2 layers with sum/mean at layer and call level.",
+        "The schedule exploration runs source-derived bodies on Python threads under sequential consistency at element granularity; it "
+        "does not drive numba's compiled threads. The 16-thread free run of the compiled kernel (thorough) is corroboration only.",
+        "DESIGN.md §2.4, §3 C05",
+    ),
     "C16": (
         True,
         "exploration",
